@@ -65,9 +65,11 @@ pub fn build_segment(case: &Case) -> (Segment, Vec<DeviceDesc>) {
         dev.mem[R_ADDR..R_ADDR + 2].copy_from_slice(&c.stale_addr.to_le_bytes());
         dev.sii.read8 = c.read8;
         dev.sii.busy_polls = c.busy;
-        dev.dc.supported = c.dc > 0;
-        dev.dc.enhanced = c.dc > 1;
-        dev.dc.bits64 = c.dc == 3;
+        // 0 none, 1 reference only, 2 32 bit, 3 64 bit; 4 and 5: no DC, but the 'enhanced DC sync'
+        // resp. '64 bit' flag of register 0x0008 is set nevertheless
+        dev.dc.supported = (1..=3).contains(&c.dc);
+        dev.dc.enhanced = c.dc == 2 || c.dc == 3 || c.dc == 4;
+        dev.dc.bits64 = c.dc == 3 || c.dc == 5;
         if c.mailbox {
             let mut coe = crate::coe::CoeServer::new(64);
             // PDO assignment objects so that CoE configuration in later states works
@@ -95,7 +97,7 @@ pub enum InitOutcome {
 
 fn expected_dc(c: &DevCfg) -> DcSupport {
     match c.dc {
-        0 => DcSupport::None,
+        0 | 4 | 5 => DcSupport::None,
         1 => DcSupport::RefOnly,
         2 => DcSupport::Bits32,
         _ => DcSupport::Bits64,
@@ -300,7 +302,7 @@ fn cases(thorough: bool) -> Vec<Case> {
         let mut f = Vec::new();
         for named in [true, false] {
             for mailbox in [false, true] {
-                for dc in [0u8, 1, 2, 3] {
+                for dc in [0u8, 1, 2, 3, 4, 5] {
                     for busy in [0u8, 2] {
                         f.push(DevCfg { stale_addr: 0x1000, read8: dc % 2 == 0, named, mailbox, dc, busy });
                     }
@@ -340,7 +342,7 @@ fn cases(thorough: bool) -> Vec<Case> {
 
 pub fn c09(tier: &Tier) -> Result<i32, String> {
     let mut rep = Report::new("C09", "exploration", tier);
-    rep.rule = "simulated chains enumerated exhaustively in the stated bound: (a) every device count 0..=MAX+2 for each capacity, (b) every arrangement of stale station addresses {0,0x1000,0x1001,0xffff} x SII read size 4/8 for 1..=3 devices, (c) feature mixes name/mailbox/DC level/busy polls, (d) every mapping of 1..=4 devices onto 3 groups plus a rejecting filter at every position; each case runs the real MainDevice::init against the segment simulator; non-trivial = at least two devices".into();
+    rep.rule = "simulated chains enumerated exhaustively in the stated bound: (a) every device count 0..=MAX+2 for each capacity, (b) every arrangement of stale station addresses {0,0x1000,0x1001,0xffff} x SII read size 4/8 for 1..=3 devices, (c) feature mixes name/mailbox/DC level (none, reference only, 32 bit, 64 bit, and no DC with the enhanced-sync or the 64-bit flag set)/busy polls, (d) every mapping of 1..=4 devices onto 3 groups plus a rejecting filter at every position; each case runs the real MainDevice::init against the segment simulator; non-trivial = at least two devices".into();
     rep.assumptions = vec![
         "segment simulator (/verif/mc/src/sim.rs) stands for the hardware; it is written from the ESC datasheet semantics and uses no ethercrab type".into(),
         "chains only (tree topologies are C17); capacities MAX in {2,4,8}; ethercrab built without std, virtual time, 10 us per frame".into(),
